@@ -25,6 +25,7 @@ import (
 	"sort"
 	"strings"
 	"sync"
+	"sync/atomic"
 	"syscall"
 	"time"
 
@@ -116,6 +117,9 @@ type sstTable struct {
 	// variant "emptykey": bytes as in "binary", but the first entry's key is the EMPTY key (the smallest byte string), so
 	// the target token 1 ("before the first key") has no bytes of its own and stands for the empty key as well
 	emptyFirst bool
+	// chain[i]: key i is key i-1 followed by 0x01 - consecutive keys one of which is a prefix of the other (the delta
+	// encoding then shares the whole previous key); variants "binary" and "emptykey"
+	chain []bool
 	keys    [][]byte // 1..n
 	vals    [][]byte // nil = tombstone
 	seqs    []uint64
@@ -223,9 +227,25 @@ func newSSTTable(beh *sstBeh, variant string, seed uint64) (*sstTable, error) {
 	lk := len(t.keyBase(0))
 	// the slack of a one-entry first block has to go into the value if the key is to stay empty
 	t.emptyFirst = variant == "emptykey" && (len(beh.Lens) == 1 || beh.Lens[0] > 1 || beh.Ents[0].C == "norm" || beh.Ents[0].C == "big")
+	t.chain = make([]bool, n+2)
+	inChain := make([]bool, n+2)
+	if variant == "binary" || variant == "emptykey" {
+		f0 := 1
+		for _, m := range beh.Lens {
+			for i := f0 + 1; i+1 <= f0+m-1; i++ { // never the first entry of a block: it stays free to carry the slack
+				if !inChain[i] && sstMix(seed, uint64(i), 6)%3 == 0 {
+					t.chain[i+1], inChain[i], inChain[i+1] = true, true, true
+				}
+			}
+			f0 += m
+		}
+	}
 	klen := func(i int) int {
 		if t.emptyFirst && i == 1 {
 			return 0
+		}
+		if t.chain[i] {
+			return lk + 1
 		}
 		return lk
 	}
@@ -268,8 +288,14 @@ func newSSTTable(beh *sstBeh, variant string, seed uint64) (*sstTable, error) {
 			}
 			h := sstMix(seed, uint64(b), 2)
 			j := first + int((h>>8)%uint64(m))
+			if inChain[j] {
+				j = first
+			}
 			if t.emptyFirst && j == 1 {
 				j = last
+				for j > 1 && inChain[j] {
+					j--
+				}
 			}
 			if len(flex) > 0 && (h%4 != 0 || (t.emptyFirst && j == 1)) {
 				// spread the slack over the normal values
@@ -295,6 +321,9 @@ func newSSTTable(beh *sstBeh, variant string, seed uint64) (*sstTable, error) {
 		if t.emptyFirst && i == 1 {
 			k = []byte{}
 		}
+		if t.chain[i] {
+			k = append(append([]byte{}, t.keys[i-1]...), 0x01)
+		}
 		if kpad[i] > 0 {
 			k = append(k, t.bytesOf(kpad[i], sstMix(seed, uint64(i), 3))...)
 		}
@@ -319,7 +348,8 @@ func newSSTTable(beh *sstBeh, variant string, seed uint64) (*sstTable, error) {
 			cnt++
 			full := cur+sstRestarts(cnt)*4+12 >= sstBlockLimit
 			if full != (x == m-1) && !(b == len(beh.Lens)-1 && !full) {
-				return nil, fmt.Errorf("block %d: cut would fall at entry %d of %d", b+1, x+1, m)
+				return nil, fmt.Errorf("block %d: cut would fall at entry %d of %d (entry %d: key %d + value %d bytes, estimate %d)",
+					b+1, x+1, m, i, len(t.keys[i]), len(t.vals[i]), cur+sstRestarts(cnt)*4+12)
 			}
 			i++
 		}
@@ -336,6 +366,9 @@ func (t *sstTable) target(tok int, salt uint64) []byte {
 	}
 	lo, hi := (tok-1)/2, (tok+1)/2
 	lb := len(t.keyBase(0))
+	if hi <= t.n && t.chain[hi] { // between k and k+0x01 there is little room
+		return append(append([]byte{}, t.keys[lo]...), 0x00)
+	}
 	switch sstMix(t.seed, uint64(tok), salt) % 4 {
 	case 1:
 		if lo >= 1 {
@@ -393,8 +426,13 @@ type sstLayout struct {
 	footerOff            int
 }
 
-func sstParseBlock(data []byte, off int) (sstRawBlock, error) {
-	rb := sstRawBlock{off: off, size: len(data)}
+func sstParseBlock(data []byte, off int) (rb sstRawBlock, err error) {
+	defer func() {
+		if x := recover(); x != nil {
+			err = fmt.Errorf("block at %d is not in the documented format: %v", off, x)
+		}
+	}()
+	rb = sstRawBlock{off: off, size: len(data)}
 	if len(data) < 16 {
 		return rb, errors.New("block too small")
 	}
@@ -444,8 +482,13 @@ func sstParseBlock(data []byte, off int) (sstRawBlock, error) {
 	return rb, nil
 }
 
-func sstParseLayout(data []byte) (*sstLayout, error) {
-	l := &sstLayout{size: len(data)}
+func sstParseLayout(data []byte) (l *sstLayout, err error) {
+	defer func() {
+		if x := recover(); x != nil {
+			l, err = nil, fmt.Errorf("file is not in the documented format: %v", x)
+		}
+	}()
+	l = &sstLayout{size: len(data)}
 	if len(data) < 68 {
 		return nil, errors.New("file smaller than a footer")
 	}
@@ -592,6 +635,9 @@ func (t *sstTable) at(it sstCursor, pos int) (string, string, bool) {
 	}
 	return exp, desc, true
 }
+
+// calls that never return cost seconds each: after a few of them the remaining cursor programs are not run any more
+var sstHangs atomic.Int32
 
 type sstRun struct {
 	t     *sstTable
@@ -742,7 +788,7 @@ func (r *sstRun) run() {
 	var it sstCursor
 	useAdapter := false
 	hangs := 0
-	for i := 0; i < len(t.beh.Prog) && hangs == 0; { // a call that hangs costs seconds: one per table is enough
+	for i := 0; i < len(t.beh.Prog) && hangs == 0 && sstHangs.Load() < 8; { // a call that hangs costs seconds: one per table is enough
 		j := i
 		for j < len(t.beh.Prog) && t.beh.Prog[j].A != "newiter" {
 			j++
@@ -777,6 +823,7 @@ func (r *sstRun) run() {
 		})
 		if hung {
 			hangs++
+			sstHangs.Add(1)
 			r.miss("hang", p, 0, "call returns", "call did not return within 4 s", "in "+sstProgString(t.beh.Prog[i:p+1]))
 		} else if pan != "" {
 			r.miss("panic", p, 0, "call returns", pan, "in "+sstProgString(t.beh.Prog[i:p+1]))
@@ -819,8 +866,8 @@ func (t *sstTable) skew(how string) {
 	}
 }
 
-func sstReplayOne(b int, beh *sstBeh, variant string, seed uint64, work string, limit int, skew string) sstResult {
-	res := sstResult{B: b, Variant: variant, Entries: len(beh.Ents), Blocks: len(beh.Lens)}
+func sstReplayOne(b int, beh *sstBeh, variant string, seed uint64, work string, limit int, skew string) (res sstResult) {
+	res = sstResult{B: b, Variant: variant, Entries: len(beh.Ents), Blocks: len(beh.Lens)}
 	t, err := newSSTTable(beh, variant, seed)
 	if err != nil {
 		res.Infra = err.Error()
@@ -840,21 +887,25 @@ func sstReplayOne(b int, beh *sstBeh, variant string, seed uint64, work string, 
 	}
 	res.Bytes = int64(len(data))
 	t.skew(skew)
-	lay, err := sstParseLayout(data)
-	if err != nil {
-		res.Infra = err.Error()
-		return res
-	}
-	if len(lay.blocks) != len(beh.Lens) {
-		res.Infra = fmt.Sprintf("shape not reproduced: %d blocks for lengths %v", len(lay.blocks), beh.Lens)
-		return res
-	}
-	for i, rb := range lay.blocks {
-		if len(rb.entries) != beh.Lens[i] {
-			res.Infra = fmt.Sprintf("shape not reproduced: block %d has %d entries, planned %d", i+1, len(rb.entries), beh.Lens[i])
-			return res
+	// the harness decodes the layout itself to make sure the planned shape was reproduced; if it cannot, the verdict is
+	// left to the comparison below (a writer that breaks the format shows there) and only a CLEAN run is called infra
+	shape := ""
+	if lay, err := sstParseLayout(data); err != nil {
+		shape = err.Error()
+	} else if len(lay.blocks) != len(beh.Lens) {
+		shape = fmt.Sprintf("shape not reproduced: %d blocks for lengths %v", len(lay.blocks), beh.Lens)
+	} else {
+		for i, rb := range lay.blocks {
+			if len(rb.entries) != beh.Lens[i] && shape == "" {
+				shape = fmt.Sprintf("shape not reproduced: block %d has %d entries, planned %d", i+1, len(rb.entries), beh.Lens[i])
+			}
 		}
 	}
+	defer func() {
+		if shape != "" && res.NMism == 0 && res.Infra == "" {
+			res.Infra, res.Ok = shape, false
+		}
+	}()
 	rd, err := sstable.OpenReader(path)
 	if err != nil {
 		run.miss("open", 0, 0, "table opens", err.Error(), "")
